@@ -84,6 +84,9 @@ func (e *eventRingBuffer) GetRecentEvents(count uint64) []*si.EventRecord {
 		startID = lastID - count + 1
 	}
 
+	// never start before the oldest event still in the buffer
+	startID = max(startID, e.getLowestID())
+
 	history, _, _ := e.getEventsFromID(startID, count)
 	return history
 }
